@@ -563,6 +563,53 @@ static void other_scenarios()
                                      }});
         }
     }
+    // a new-handler that releases memory by clearing the very object whose operation is allocating (a cache-dropping handler): the
+    // first attempt of the allocation fails, the handler runs, the retry succeeds - the object must end up with the operation's result
+    // and own its storage alone
+    {
+        static ST::char_buffer *victim_b = nullptr;
+        static S *victim_s = nullptr;
+        for (int what = 0; what < 6; ++what) {
+            static const char *WN[6] = {"buffer[40].allocate(40, 'b')", "buffer[40].allocate(100, 'b')", "buffer[40] = buffer[36] (copy)", "buffer[40].allocate(40) then fill",
+                                        "string[40].set(40-byte text)", "string[40] = string[60] (copy)"};
+            g_scn.push_back(Scenario{vf::strf("new-handler clears the target: %s", WN[what]), [=](vf::Outcome &oc) {
+                                         ST::char_buffer b, src, other;
+                                         S t, u;
+                                         std::string want;
+                                         SETUP(b.allocate(40, 'a'); src.allocate(36, 'x'); t = S::fill(40, 'a'); u = S::fill(60, 'u'));
+                                         victim_b = &b;
+                                         victim_s = &t;
+                                         std::set_new_handler([] {
+                                             std::set_new_handler(nullptr);
+                                             vf::OpScope sc;
+                                             victim_b->clear();
+                                             victim_s->clear();
+                                         });
+                                         oc = vf::guard([&] {
+                                             switch (what) {
+                                             case 0: LIB(b.allocate(40, 'b')); want = std::string(40, 'b'); break;
+                                             case 1: LIB(b.allocate(100, 'b')); want = std::string(100, 'b'); break;
+                                             case 2: LIB(b = src); want = std::string(36, 'x'); break;
+                                             case 3: LIB(b.allocate(40)); memset(b.data(), 'c', 40); want = std::string(40, 'c'); break;
+                                             case 4: LIB(t.set(std::string(40, 'n').c_str())); want = std::string(40, 'n'); break;
+                                             default: LIB(t = u); want = std::string(60, 'u'); break;
+                                             }
+                                         });
+                                         std::set_new_handler(nullptr);
+                                         std::string pr;
+                                         if (oc.ok()) {
+                                             // something else of the same size class is allocated next: it must not receive storage the target still uses
+                                             SETUP(other.allocate(want.size(), 'z'));
+                                             const ST::char_buffer &tb = what < 4 ? b : t.m_buffer;
+                                             if (tb.size() != want.size() || std::string(tb.data(), tb.size()) != want || tb.data()[tb.size()] != 0) pr = "the target does not hold the operation's result";
+                                             else if (tb.data() == other.data()) pr = "the target shares its storage with a buffer allocated afterwards";
+                                         }
+                                         LIB(b.~buffer(); new (&b) ST::char_buffer(); src.~buffer(); new (&src) ST::char_buffer(); other.~buffer(); new (&other) ST::char_buffer();
+                                             t.~S(); new (&t) S(); u.~S(); new (&u) S());
+                                         return pr;
+                                     }});
+        }
+    }
     // appending a stream's own content (source inside the buffer that has to grow), stack- and heap-backed
     for (size_t pre : {size_t(200), size_t(300), size_t(600)})
         for (int how = 0; how < 3; ++how) {
@@ -789,7 +836,9 @@ struct StandaloneSys {
                 } else if (g_fault_fired) {
                     ++n_faults;
                     alloc_points[sc.name].second++;
-                    if (oc.ok()) fail("fault-swallowed", "the call returned normally although one of its allocations failed");
+                    if (oc.ok() && sc.name.compare(0, 11, "new-handler") == 0) {
+                        // the handler made room and the retry succeeded: success is the expected outcome
+                    } else if (oc.ok()) fail("fault-swallowed", "the call returned normally although one of its allocations failed");
                     else if (oc.kind != vf::EX_BAD_ALLOC) fail(vf::strf("fault-surfaced-as-%s", vf::outkind_name(oc.kind)), oc.str());
                 }
                 if (!pr.empty()) fail("object-left-broken", pr);
